@@ -5,6 +5,8 @@ From Dimod Require Import Base.Util Model.Poly Model.HPoly Proofs.PolyFacts Proo
 From Dimod Require Model.Adj Proofs.AdjDense Model.FixPy Proofs.FixPyFacts.
 From Dimod Require Model.Expr Model.FixCopy Proofs.FixCopyFacts Proofs.FixCopyBack Proofs.FixCopyKeep Proofs.ExprFacts Proofs.CqmSim.
 From Dimod Require Model.HPolyPy Proofs.HPolyPyFacts.
+From Dimod Require Model.FixCopyGen Proofs.FixCopyGenFacts.
+From Dimod Require Model.VartypeOps Model.FlipMarks Proofs.FlipMarksFacts.
 Import ListNotations.
 Open Scope Qc_scope.
 
@@ -268,6 +270,116 @@ Theorem C03_poly_fix_loop_constant_item :
   (forall t : mono, In t (fst (HPolyPy.fix_loop_py fixed p)) -> fst t <> []).
 Proof. exact HPolyPyFacts.fix_variables_py_has_offset. Qed.
 Print Assumptions C03_poly_fix_loop_constant_item.
+
+
+(* ---------- the copy-path model is driven by the branch table translators/fix_copy_shape.py extracts fail-closed from
+   constrained_quadratic_model.h fix_variables_expr (which assignment multiplies the bias, which new variable receives the
+   term): unfolding only, so a changed branch in the source breaks this file ---------- *)
+Theorem C03_fix_copy_step_uses_source_table :
+  forall (vt' : nat -> vartype) (vars : list nat) (o2n : list (option nat)) 
+    (asg : list Qc) (dst : Expr.mexpr) (t : Expr.lqterm),
+  FixCopy.fve_quad_step vt' vars o2n asg dst t = FixCopyGen.fve_quad_step_g vt' vars o2n asg dst t.
+Proof. exact FixCopyGenFacts.fve_quad_step_uses_source_table. Qed.
+Print Assumptions C03_fix_copy_step_uses_source_table.
+
+Theorem C03_fix_copy_uses_source_table :
+  forall (vt' : nat -> vartype) (src : Expr.mexpr) (o2n : list (option nat)) (asg : list Qc),
+  FixCopy.fix_variables_expr vt' src o2n asg = FixCopyGen.fix_variables_expr_g vt' src o2n asg.
+Proof. exact FixCopyGenFacts.fix_variables_expr_uses_source_table. Qed.
+Print Assumptions C03_fix_copy_uses_source_table.
+
+
+(* ---------- the Cython in-place fix_variable with its discrete-marker loop; what is_discrete() reports after the in-place
+   and after the copying path; the two paths can DISAGREE about discreteness on out-of-domain assignments
+   (observation: discreteness is not among the attributes the property text lists) ---------- *)
+Theorem C03_cqm_cython_fix_variable_energy :
+  forall (v : nat) (a : Qc) (q : Expr.mcqm),
+  ExprFacts.CqmInv q ->
+  (v < length (Expr.m_info q))%nat ->
+  let q' := FlipMarks.cy_cqm_fix_variable v a q in
+  let ext := fun s : sample => upd (fun u : nat => s (Expr.shift v u)) v a in
+  ExprFacts.CqmInv q' /\
+  Expr.m_info q' = Expr.remove_nth v (Expr.m_info q) /\
+  (forall s : sample,
+   energy (Expr.abs_expr (Expr.m_obj q')) s = energy (Expr.abs_expr (Expr.m_obj q)) (ext s)) /\
+  Forall2
+    (fun k' k : Expr.mcon =>
+     (forall s : sample,
+      energy (Expr.abs_expr (Expr.mc_e k')) s = energy (Expr.abs_expr (Expr.mc_e k)) (ext s)) /\
+     FixCopyFacts.con_attrs k' = FixCopyFacts.con_attrs k /\
+     Expr.mc_mark k' =
+     Expr.mc_mark k && negb (FlipMarks.cy_marks_guard v a q && FlipMarks.mc_has_variable v k))
+    (Expr.m_cons q') (Expr.m_cons q) /\ FlipMarksFacts.sbm q' (Expr.cqm_fix_variable v a q).
+Proof. exact FlipMarksFacts.cy_cqm_fix_variable_energy. Qed.
+Print Assumptions C03_cqm_cython_fix_variable_energy.
+
+Theorem C03_cqm_marker_loop_changes_only_markers :
+  forall (fs : list (nat * Qc)) (q : Expr.mcqm),
+  FlipMarksFacts.sbm (FlipMarks.cy_cqm_fix_variables_inplace fs q)
+    (FixCopy.cqm_fix_variables_inplace fs q).
+Proof. exact FlipMarksFacts.cy_cqm_fix_variables_inplace_sbm. Qed.
+Print Assumptions C03_cqm_marker_loop_changes_only_markers.
+
+Theorem C03_cqm_inplace_markers :
+  forall (fs : list (nat * Qc)) (q : Expr.mcqm),
+  ExprFacts.CqmInv q ->
+  FixCopyFacts.FixOk (length (Expr.m_info q)) fs ->
+  FlipMarks.marks_view (FlipMarks.cy_cqm_fix_variables_inplace fs q) =
+  map (fun k : Expr.mcon => Expr.mc_mark k && negb (FlipMarks.mark_hit q fs k)) (Expr.m_cons q).
+Proof. exact FlipMarksFacts.cy_inplace_marks. Qed.
+Print Assumptions C03_cqm_inplace_markers.
+
+Theorem C03_discrete_view_inplace :
+  forall (fs : list (nat * Qc)) (q : Expr.mcqm),
+  ExprFacts.CqmInv q ->
+  FixCopyFacts.FixOk (length (Expr.m_info q)) fs ->
+  FlipMarks.discrete_view (FlipMarks.cy_cqm_fix_variables_inplace fs q) =
+  map
+    (fun p : Expr.mcon * bool => Expr.mc_mark (fst p) && negb (FlipMarks.mark_hit q fs (fst p)) && snd p)
+    (combine (Expr.m_cons q) (FlipMarks.onehot_view (FixCopy.cqm_fix_variables_inplace fs q))).
+Proof. exact FlipMarksFacts.discrete_view_inplace. Qed.
+Print Assumptions C03_discrete_view_inplace.
+
+Theorem C03_discrete_view_copy :
+  forall (fs : list (nat * Qc)) (q : Expr.mcqm),
+  ExprFacts.CqmInv q ->
+  FixCopyFacts.FixOk (length (Expr.m_info q)) fs ->
+  FlipMarks.discrete_view (FixCopy.cqm_fix_variables_copy fs q) =
+  map (fun p : Expr.mcon * bool => Expr.mc_mark (fst p) && snd p)
+    (combine (Expr.m_cons q) (FlipMarks.onehot_view (FixCopy.cqm_fix_variables_copy fs q))).
+Proof. exact FlipMarksFacts.discrete_view_copy. Qed.
+Print Assumptions C03_discrete_view_copy.
+
+Theorem C03_discrete_view_inplace_vs_copy :
+  forall (fs : list (nat * Qc)) (q : Expr.mcqm),
+  ExprFacts.CqmInv q ->
+  FixCopyFacts.FixOk (length (Expr.m_info q)) fs ->
+  FlipMarksFacts.onehot_agree fs q = true ->
+  FlipMarks.discrete_view (FlipMarks.cy_cqm_fix_variables_inplace fs q) =
+  map (fun p : Expr.mcon * bool => snd p && negb (FlipMarks.mark_hit q fs (fst p)))
+    (combine (Expr.m_cons q) (FlipMarks.discrete_view (FixCopy.cqm_fix_variables_copy fs q))).
+Proof. exact FlipMarksFacts.discrete_view_inplace_vs_copy. Qed.
+Print Assumptions C03_discrete_view_inplace_vs_copy.
+
+Theorem C03_discrete_inplace_implies_copy :
+  forall (fs : list (nat * Qc)) (q : Expr.mcqm) (j : nat),
+  ExprFacts.CqmInv q ->
+  FixCopyFacts.FixOk (length (Expr.m_info q)) fs ->
+  FlipMarksFacts.onehot_agree fs q = true ->
+  nth j (FlipMarks.discrete_view (FlipMarks.cy_cqm_fix_variables_inplace fs q)) false = true ->
+  nth j (FlipMarks.discrete_view (FixCopy.cqm_fix_variables_copy fs q)) false = true.
+Proof. exact FlipMarksFacts.discrete_inplace_implies_copy. Qed.
+Print Assumptions C03_discrete_inplace_implies_copy.
+
+Theorem C03_discrete_paths_disagree_refuted :
+  exists (fs : list (nat * Qc)) (q : Expr.mcqm),
+    forallb (fun k : Expr.mcon => Expr.expr_ok (length (Expr.m_info q)) (Expr.mc_e k)) (Expr.m_cons q) =
+    true /\
+    FlipMarksFacts.onehot_agree fs q = true /\
+    FlipMarks.discrete_view (FlipMarks.cy_cqm_fix_variables_inplace fs q) = [false] /\
+    FlipMarks.discrete_view (FixCopy.cqm_fix_variables_copy fs q) = [true].
+Proof. exact FlipMarksFacts.discrete_paths_disagree_refuted. Qed.
+Print Assumptions C03_discrete_paths_disagree_refuted.
 
 
 (* non-vacuity: 3 i^2 + 2 i + 5 i j + j with i := 2 is 49 at j = 3 *)
